@@ -106,6 +106,15 @@ CHECKS.update({
    note="depth <= 5 plus one depth-300 chain; +0 vs -0 constants: either verdict accepted; symbolic kinds may throw UnsupportedError"),
 })
 
+CHECKS.update({
+ "C13": dict(level="exploration", engine="rapidcheck", design="3/C13",
+   technique="rapidcheck-generated (function, parameter, interval, tolerance, integrality) cases through mp::PLApproximate; the returned PL function is compared "
+             "with the true function (long double) on every piece by sampling plus a local maximum search; structural invariants of breakpoints, domain and period data",
+   text="About 19000 generated cases per quick run over all 17 function types, bases/exponents, intervals (tiny, huge, clipped, straddling 0 or a period, far from 0), "
+        "tolerances 1e-1..1e-6 and integer arguments. One recorded finding (breakpoints nearer than 1e-4 are dropped) is excluded by its signature and probed by fixed inputs.",
+   note="2% slack on the tolerance; maxima located numerically; integer arguments judged at integers"),
+})
+
 NOT_APPLICABLE = []
 
 def main():
